@@ -5,8 +5,16 @@ from dst import boot
 boot.reexec_if_needed(); boot.boot()
 from dst import harness, views, oracles
 from dst.oracles import registry
-rp = json.load(open(sys.argv[1]))
-scen = rp.get("scenario", rp)
+if sys.argv[1].startswith("root="):
+    from dst import zoo, profiles
+    root = sys.argv[1][5:]
+    prop = root.split("/")[1]
+    idx = int(root.split("/")[-1])
+    spec = profiles.specs_for(prop, root.split("/")[0], idx + 1, root.split("/")[2])[idx]
+    scen = zoo.gen_scenario(spec["root"], spec.get("profile"))
+else:
+    rp = json.load(open(sys.argv[1]))
+    scen = rp.get("scenario", rp)
 print(json.dumps({k: v for k, v in scen.items() if k not in ("space",)}, default=str)[:1500])
 h = harness.run_scenario(scen)
 skip = set(sys.argv[2].split(",")) if len(sys.argv) > 2 else {"cb.loop_start", "sleep", "cb.sleep", "w.ckpt"}
